@@ -10,6 +10,8 @@ struct C08CPlan
   int cycle;             // 1: the last node points back at node 0 and no outside handle is left; the cycle is then broken by assigning
                          //    to one member handle through a plain pointer: the assignment releases the object its own target lives in
   int break_at;          // node whose member handle is assigned to
+  int far_apart;         // > 0: instead, handles to objects that lie 2^31, 2^32 or k*2^32 bytes apart are compared (the objects are placed in
+                         //      reserved address space; their addresses are otherwise as good as any)
   int long_n;            // > 0: instead, a chain of this many nodes (thousands) is built and its head released: all of them go in that one release
   int break_kind;        // 0 = handle to node Z, 1 = temporary handle to Z (move), 2 = Z's plain pointer, 3 = nullptr, 4 = empty handle
 };
@@ -26,6 +28,8 @@ void c08c_step_begin(int step, int kind);
 void c08c_step_end(int step, int head_id);
 int c08c_alive(int id);                              // model: the node must still exist
 void c08c_count(int id, long long use_count);
+void c08c_far_result(int which, int a_is_b, int eq, int ne, int lt, int gt, unsigned long long addr_a, unsigned long long addr_b);
+void c08c_far_done(int destroyed);
 void c08c_long_begin(int n);
 void c08c_long_destroyed(int id);
 void c08c_long_released(void);                       // the release of the head has returned
